@@ -695,7 +695,28 @@ def preconditions(sm, R, rule):
             R.violation(rule, "future-dropped-unpolled:%s:%s" % (u["fn"], u["callee"]),
                         "%s creates the future of %s (%s effects: %s) and drops it without polling it: the effect never happens" % (u["fn"], u["callee"], "/".join(sorted(u["env"])), ", ".join(sorted(u["names"]))[:120]), u["loc"])
     R.holds(rule, "effect-futures-polled", "no future standing for an environment effect is dropped unpolled")
-    # 5. construction notes
+    # 5. the request loop decides "retry or give up" on the conditions themselves, not on a boolean that merges several of
+    #    them (`let should_retry = match &error { .. }; if !should_retry { break }`): the rules attribute each way out of
+    #    the loop to an error variant by the edges it is taken on, which a merged flag hides
+    if rule[:3] in ("C02", "C04", "C06", "C10", "C14"):
+        S_ = sm.S_check
+        reqs_ = sm.env(S_, "Http", "request")
+        loops_ = [L_ for L_ in sccs(S_, S_.live) if any(r_ in L_ for r_ in reqs_)]
+        if loops_:
+            L_ = loops_[0]
+            hdr_ = min((S_.nodes[v_].ctx for v_ in L_), key=lambda cx_: cx_.depth)
+            hb_ = hdr_.bv
+            for v_ in sorted(L_):
+                nd_ = S_.nodes[v_]
+                if nd_.ctx is not hdr_ or nd_.term["k"] != "switch" or hb_.switch_subject(nd_.bi) is not None or hb_.crate.types[nd_.term["ot"]]["s"] != "bool":
+                    continue
+                if not any(b_ not in L_ for b_ in S_.succ[v_]):
+                    continue        # not a way out of the loop
+                t_ = _unflip(hb_.trace_op(nd_.term["o"]))
+                if t_[0] == "phi" and sum(1 for a_ in t_[1] if _unflip(a_)[0] != "const") >= 1 and len(t_[1]) >= 3:
+                    R.inconclusive(rule, "merged-retry-decision", "the request loop is left on a boolean that merges %d alternatives (%s): which error ends the attempts cannot be read off the edges" % (len(t_[1]), nd_.loc()))
+                    break
+    # 6. construction notes
     for S in sm._supers.values():
         for note in S.notes:
             R.inconclusive(rule, "skeleton-note:%s" % (note[0],), str(note))
